@@ -2,7 +2,7 @@
    from (schema, fragments, one operation or fragment definition) to the list of generated
    result classes.  Executable definitions only.  Defects of the code are reproduced, not repaired. *)
 From Coq Require Import List String Ascii Bool Arith.
-From AC Require Import Base.Strs Base.Sexp Gql.Schema Py.Ann Model.Names.
+From AC Require Import Base.Strs Base.Sexp Base.Json Gql.Schema Gql.Exec Py.Ann Py.Pydantic Model.Names.
 Import ListNotations.
 Local Open Scope string_scope.
 Local Open Scope list_scope.
@@ -416,8 +416,40 @@ Definition d_defn (e : sexp) : option defn :=
   | _ => None
   end.
 
+(* classes of one operation module together with the fragments module *)
+Definition all_classes (fuel : nat) (C : cfg) (S : schema) (frs : list fragdef) (d : defn)
+  : res (list pclass) :=
+  own <- result_classes fuel C S frs d ;;
+  fold_left (fun acc f => l <- acc ;; c <- result_classes fuel C S frs (DFrag f) ;; Ok (l ++ c))
+            frs (Ok own).
+
+Definition schema_enums (S : schema) : list (string * list string) :=
+  flat_map (fun p => match snd p with DEnum vs => [(fst p, vs)] | _ => [] end) (s_types S).
+
 Definition run_results (e : sexp) : sexp :=
   match e with
+  | L [A "conf"; fuel; s; fs; d; L payloads] =>
+      match dNat fuel, d_schema s, dList d_frag fs, d_defn d, dAll json_of_sexp payloads with
+      | Some fuel, Some s, Some fs, Some (DOp kind _ _ sels), Some js =>
+          match root_type_name s kind with
+          | Ok root => L [A "ok"; L (map (fun j => sB (conf_op fuel s fs root sels j)) js)]
+          | Err m => L [A "err"; A m]
+          end
+      | _, _, _, _, _ => sErr "results: cannot decode arguments"
+      end
+  | L [A "validate"; fuel; c; s; fs; d; L payloads] =>
+      match dNat fuel, d_cfg c, d_schema s, dList d_frag fs, d_defn d, dAll json_of_sexp payloads with
+      | Some fuel, Some c, Some s, Some fs, Some d, Some js =>
+          match all_classes fuel c s fs d with
+          | Ok (root :: rest) =>
+              L [A "ok"; L (map (fun j => sB (accepts fuel (root :: rest) (schema_enums s)
+                                                     (AClass (c_name root)) j)) js);
+                 L (map (fun j => sB (covers fuel (root :: rest) (AClass (c_name root)) j)) js)]
+          | Ok [] => L [A "err"; A "no classes"]
+          | Err m => L [A "err"; A m]
+          end
+      | _, _, _, _, _, _ => sErr "results: cannot decode arguments"
+      end
   | L [A "classes"; fuel; c; s; fs; d] =>
       match dNat fuel, d_cfg c, d_schema s, dList d_frag fs, d_defn d with
       | Some fuel, Some c, Some s, Some fs, Some d =>
